@@ -41,7 +41,10 @@ def adjoint_identity(c, backing, dom, rng, m, n):
     def adj(w):
         out = A.T @ (w.ravel(order='F' if rng.endswith(':F') else 'C') if shp_r else w)
         return out.reshape(shp_d, order='F' if dom.endswith(':F') else 'C') if shp_d else out
-    if backing == 'matrix':
+    if backing == 'sparse':
+        import scipy.sparse as sp
+        model = LinearModel(shims.STag(A, 'csr') if c.sym else sp.csr_matrix(np.asarray(A, dtype=float)), range_geometry=gr, domain_geometry=gd)
+    elif backing == 'matrix':
         model = LinearModel(A, range_geometry=gr, domain_geometry=gd)
     else:
         model = LinearModel(fwd, adj, range_geometry=gr, domain_geometry=gd)     # the pair is adjoint in function space
@@ -53,7 +56,7 @@ def adjoint_identity(c, backing, dom, rng, m, n):
     # matrix representation reproduces the forward map column by column
     Mx = model.get_matrix()
     Mx = Mx.toarray() if hasattr(Mx, 'toarray') else np.asarray(Mx)
-    c.holds('matrix_shape', np.shape(Mx) == (m, n) or backing == 'matrix', note=str(np.shape(Mx)))
+    c.holds('matrix_shape', np.shape(Mx) == (m, n) or backing in ('matrix', 'sparse'), note=str(np.shape(Mx)))
     if np.shape(Mx) == (m, n):
         for i in range(n):
             e = np.zeros(n); e[i] = 1.0
@@ -161,6 +164,8 @@ def jobs(tier):
                 if 'Image2D' in rng and m % 2: continue
                 J.append(Job(f'LinearModel:{backing}:domain={dom}:range={rng}:m={m}:n={n}',
                              lambda c, b=backing, d=dom, r=rng, m=m, n=n: adjoint_identity(c, b, d, r, m, n), 'Pbox', FL, maxpaths=64))
+    for (m_, n_) in ((2, 3), (3, 2)):
+        J.append(Job(f'LinearModel:sparse:domain=default:range=default:m={m_}:n={n_}', lambda c, m_=m_, n_=n_: adjoint_identity(c, 'sparse', 'default', 'default', m_, n_), 'Pbox', FL, maxpaths=64))
     J.append(Job('LinearModel:functions:history:geometries_reassigned_after_T_was_read', geometry_reassignment, 'Pbox', FL))
     for kind in ('identity', 'subsample', 'flip'):
         J.append(Job(f'LinearModel:functions:{kind}_view', lambda c, k=kind: view_models(c, k), 'Pbox', FL))
